@@ -5,11 +5,12 @@
    layout (doc/images-1.1.rst): per cell a list sorted by path; unified / additional_variants
    written only for unified images.                                                           *)
 EXTENDS Naturals, Sequences, FiniteSets, FiniteSetsExt, TLC, Json
-CONSTANTS MaxCells, MaxPerCell
+CONSTANTS MaxCells, MaxPerCell,
+          WithTwin        \* include the twin image p9 (switched off for the widest enumeration, which would not fit in memory)
 I(n, vol, imp, sums, size, uni, av, boot, disc) ==
   [n |-> n, pathof |-> n, twinof |-> n, volume_id |-> vol, implant_md5 |-> imp, checksums |-> sums, size |-> size, unified |-> uni,
    additional_variants |-> av, bootable |-> boot, disc_number |-> disc, disc_count |-> IF disc = 0 THEN 0 ELSE 3]
-Pool == { I("p1", "set", "hex", "one", "small", FALSE, "none", TRUE, 1),
+Pool0 == { I("p1", "set", "hex", "one", "small", FALSE, "none", TRUE, 1),
           I("p2", "null", "null", "two", "big", FALSE, "none", FALSE, 1),
           I("p3", "set", "null", "one", "big", TRUE, "two", TRUE, 1),
           I("p4", "null", "hex", "two", "small", TRUE, "one", FALSE, 1),
@@ -22,6 +23,7 @@ Pool == { I("p1", "set", "hex", "one", "small", FALSE, "none", TRUE, 1),
           \* a different file (own path, own checksum) with the identity of p1: a manifest holding both anywhere is one the
           \* library must refuse to build (C09); if it agrees to write it, C02 applies and the file must read back
           [I("p9", "set", "hex", "one", "small", FALSE, "none", TRUE, 1) EXCEPT !.twinof = "p1"] }
+Pool == IF WithTwin THEN Pool0 ELSE {i \in Pool0 : i.n # "p9"}
 ValidImg(i) == i.unified \/ i.additional_variants = "none"
 Cells == {"V1", "V2", "V-3"} \X {"a1", "a2"}
 VARIABLE m           \* manifest: chosen cells -> non-empty set of pool images
